@@ -978,8 +978,12 @@ class SymBytes:
         return repr(self)
 
     def __repr__(self):
-        # unique marker: a formatted string that embeds these bytes can be recognised verbatim
-        return "<symbytes %d #%x>" % (len(self.e), id(self))
+        # marker determined by the CONTENT (term identities): equal contents format equally, a formatted string that embeds these bytes
+        # can be recognised verbatim
+        if all(isinstance(e, int) for e in self.e):
+            return repr(bytes(self.e))
+        key = tuple(e if isinstance(e, int) else -e.t.get_id() - 1 for e in self.e)
+        return "<symbytes %d #%x>" % (len(self.e), hash(key) & 0xFFFFFFFFFF)
 
     __str__ = __repr__
 
